@@ -403,7 +403,7 @@ theorem implKnownField_depth (hc : ChildDepth c b) {S : Schema} {fs : List Field
         · simp at h
         · split at h
           · simp at h
-          · cases he : implEntryLoop c S kk f.elem n r n (Elem.zeroVar (.scalar kk)) f.elem.zeroVar with
+          · cases he : implEntryLoop c S kk f.elem n (r.take n) n (Elem.zeroVar (.scalar kk)) f.elem.zeroVar with
             | ok q =>
               obtain ⟨k', v'⟩ := q
               rw [he] at h
